@@ -76,7 +76,8 @@ func loop(ctx context.Context, v any, i int, path []string, new *any, action int
 	case i < len(path):
 		switch v := v.(type) {
 		case []any:
-			pathI, err := strconv.Atoi(path[i])
+			var pathI int
+			pathI, err = strconv.Atoi(path[i]) // must not shadow the named result: errors from below would be dropped
 			if err != nil {
 				return nil, fmt.Errorf("%s '%s': %s", errExpectingAnArrayIndex, path[i], err)
 			}
@@ -100,7 +101,8 @@ func loop(ctx context.Context, v any, i int, path []string, new *any, action int
 			}
 
 		case []string:
-			pathI, err := strconv.Atoi(path[i])
+			var pathI int
+			pathI, err = strconv.Atoi(path[i]) // must not shadow the named result: errors from below would be dropped
 			if err != nil {
 				return nil, fmt.Errorf("%s '%s': %s", errExpectingAnArrayIndex, path[i], err)
 			}
@@ -128,7 +130,8 @@ func loop(ctx context.Context, v any, i int, path []string, new *any, action int
 			}
 
 		case []int:
-			pathI, err := strconv.Atoi(path[i])
+			var pathI int
+			pathI, err = strconv.Atoi(path[i]) // must not shadow the named result: errors from below would be dropped
 			if err != nil {
 				return nil, fmt.Errorf("%s '%s': %s", errExpectingAnArrayIndex, path[i], err)
 			}
@@ -156,7 +159,8 @@ func loop(ctx context.Context, v any, i int, path []string, new *any, action int
 			}
 
 		case []float64:
-			pathI, err := strconv.Atoi(path[i])
+			var pathI int
+			pathI, err = strconv.Atoi(path[i]) // must not shadow the named result: errors from below would be dropped
 			if err != nil {
 				return nil, fmt.Errorf("%s '%s': %s", errExpectingAnArrayIndex, path[i], err)
 			}
@@ -184,7 +188,8 @@ func loop(ctx context.Context, v any, i int, path []string, new *any, action int
 			}
 
 		case []bool:
-			pathI, err := strconv.Atoi(path[i])
+			var pathI int
+			pathI, err = strconv.Atoi(path[i]) // must not shadow the named result: errors from below would be dropped
 			if err != nil {
 				return nil, fmt.Errorf("%s '%s': %s", errExpectingAnArrayIndex, path[i], err)
 			}
